@@ -8,10 +8,12 @@ import (
 	"os"
 	"sort"
 	"strings"
+	"time"
 
 	"github.com/jacobsa/fuse/fuseops"
 	"github.com/jacobsa/fuse/fuseutil"
 	"github.com/oneconcern/datamon/pkg/core"
+	"github.com/oneconcern/datamon/pkg/model"
 	dfuse "github.com/oneconcern/datamon/pkg/fuse"
 	"github.com/oneconcern/datamon/pkg/storage/localfs"
 	"github.com/spf13/afero"
@@ -49,6 +51,10 @@ type c17Op struct {
 
 type c17Case struct {
 	Files    []world.File `json:"files"`
+	// when Base is set the bundle is the commit of a diamond: split-0 uploads Base, then split-1 uploads Alt; Files is
+	// what that bundle must hold (split-1's versions win, split-0's differing versions are kept under .conflicts/split-0/)
+	Base []world.File `json:"base,omitempty"`
+	Alt  []world.File `json:"alt,omitempty"`
 	Streamed bool         `json:"streamed"`
 	Ops      []c17Op      `json:"ops"`
 	Order    []string     `json:"order"` // names in the order of the bundle's file lists
@@ -102,9 +108,15 @@ func c17Run(cs *c17Case, r *gen.Rand) {
 	if err := w.CreateRepo("repo"); err != nil {
 		panic(err)
 	}
-	id, err := w.Upload("repo", world.Consumable(cs.Files), world.UploadOpts{LeafSize: 64})
-	if err != nil {
-		panic(err)
+	var id string
+	var err error
+	if cs.Base != nil {
+		id = c17Diamond(cs, w, r)
+	} else {
+		id, err = w.Upload("repo", world.Consumable(cs.Files), world.UploadOpts{LeafSize: 64})
+		if err != nil {
+			panic(err)
+		}
 	}
 	es, err := w.Entries("repo", id)
 	if err != nil {
@@ -200,6 +212,75 @@ func c17Run(cs *c17Case, r *gen.Rand) {
 			}
 		}()
 	}
+}
+
+// c17Diamond commits a diamond of two splits and returns the bundle; the bundle is checked, by a plain download, to
+// hold what the case says
+func c17Diamond(cs *c17Case, w *world.World, r *gen.Rand) string {
+	did := kid(r, 4000)
+	dd := model.NewDiamondDescriptor(model.DiamondID(did))
+	if _, err := core.CreateDiamond("repo", w.Stores(), core.DiamondDescriptor(dd), core.DiamondLogger(world.Nop)); err != nil {
+		panic(err)
+	}
+	for i, files := range [][]world.File{cs.Base, cs.Alt} {
+		sd := model.NewSplitDescriptor(model.SplitID(fmt.Sprintf("split-%d", i)))
+		got, err := core.CreateSplit("repo", did, w.Stores(), core.SplitDescriptor(sd), core.SplitLogger(world.Nop))
+		if err != nil {
+			panic(err)
+		}
+		sp := core.NewSplit("repo", did, w.Stores(), core.SplitDescriptor(&got), core.SplitConsumableStore(world.Consumable(files)), core.SplitLogger(world.Nop))
+		sp.BundleDescriptor.LeafSize = 64
+		if err := sp.Upload(); err != nil {
+			panic(err)
+		}
+		time.Sleep(5 * time.Millisecond) // the second split is the later one
+	}
+	d := core.NewDiamond("repo", w.Stores(), core.DiamondDescriptor(model.NewDiamondDescriptor(model.DiamondID(did))), core.DiamondLogger(world.Nop))
+	d.BundleDescriptor.LeafSize = 64
+	if err := d.Commit(); err != nil {
+		panic(err)
+	}
+	bs, err := core.ListBundles("repo", w.Stores())
+	if err != nil || len(bs) != 1 {
+		panic("the diamond did not commit one bundle")
+	}
+	got, err := w.Download("repo", bs[0].ID, 0, nil)
+	var plain []world.File
+	for _, f := range got {
+		if !strings.HasPrefix(f.Name, ".datamon/") {
+			plain = append(plain, f)
+		}
+	}
+	sort.Slice(plain, func(i, j int) bool { return plain[i].Name < plain[j].Name })
+	same := err == nil && len(plain) == len(cs.Files)
+	for i := 0; same && i < len(plain); i++ {
+		same = plain[i].Name == cs.Files[i].Name && string(plain[i].Data) == string(cs.Files[i].Data)
+	}
+	if !same {
+		panic(fmt.Sprint("the committed diamond does not hold the expected files: ", err, " ", len(plain), " ", len(cs.Files)))
+	}
+	return bs[0].ID
+}
+
+// what the commit of split-0 = base, split-1 = alt must hold
+func c17Merged(base, alt []world.File) []world.File {
+	var out []world.File
+	altBy := map[string][]byte{}
+	for _, f := range alt {
+		altBy[f.Name] = f.Data
+	}
+	for _, f := range base {
+		if d, ok := altBy[f.Name]; ok {
+			if string(d) != string(f.Data) {
+				out = append(out, world.File{Name: ".conflicts/split-0/" + f.Name, Data: f.Data})
+			}
+			continue
+		}
+		out = append(out, f)
+	}
+	out = append(out, alt...)
+	sort.Slice(out, func(i, j int) bool { return out[i].Name < out[j].Name })
+	return out
 }
 
 func c17Path(p string) string {
@@ -353,6 +434,7 @@ func init() {
 				if err := json.Unmarshal(raw, &cs); err != nil {
 					panic(err)
 				}
+				c.Pending(&cs)
 				c17Run(&cs, r)
 				emit(&cs)
 			}
@@ -363,7 +445,32 @@ func init() {
 			n = 400
 		}
 		for i := 0; i < n; i++ {
-			cs := &c17Case{Files: c17Tree(r), Streamed: i%2 == 0}
+			cs := &c17Case{Files: c17Tree(r), Streamed: i%2 == 0 || i%16 == 5}
+			if i%16 == 5 || i%16 == 10 { // a bundle without files: a root directory with nothing in it
+				cs.Files = nil
+				for k := 0; k < 4; k++ {
+					cs.Ops = append(cs.Ops, c17Op{Kind: "readdir", Dir: "", Buf: 4096}, c17Op{Kind: "lookup", Dir: "", Name: fmt.Sprintf("f%d", k)})
+				}
+				c.Pending(cs)
+				c17Run(cs, r)
+				emit(cs)
+				continue
+			}
+			if i%4 == 3 { // the bundle of a diamond with conflicting splits: entries under .conflicts/ are files like any other
+				cs.Base = cs.Files
+				for _, f := range cs.Base {
+					switch r.Intn(3) {
+					case 0:
+						cs.Alt = append(cs.Alt, world.File{Name: f.Name, Data: append([]byte("other version "), f.Data...)})
+					case 1:
+						cs.Alt = append(cs.Alt, f)
+					}
+				}
+				if len(cs.Alt) == 0 {
+					cs.Alt = []world.File{{Name: cs.Base[0].Name, Data: []byte("the other version")}}
+				}
+				cs.Files = c17Merged(cs.Base, cs.Alt)
+			}
 			dirSet := map[string]bool{"": true}
 			for _, f := range cs.Files {
 				parts := strings.Split(f.Name, "/")
@@ -398,6 +505,7 @@ func init() {
 					cs.Ops = append(cs.Ops, c17Op{Kind: "read", Dir: d, Name: name, Off: r.Intn(len(f.Data) + 10), Len: r.Intn(150)})
 				}
 			}
+			c.Pending(cs)
 			c17Run(cs, r)
 			emit(cs)
 		}
